@@ -118,6 +118,8 @@ def run_case(c):
             upper = k + 1 if k < n - 1 else (0 if c["periodic"] else None)
             reg.connections = {"lower": lower, "upper": upper, "inner": None, "outer": None}
             reg.contours = []
+            # (an attribute the real region has; calcZShift has no business using it for the integrand -- the flux surface of a contour is not that of its cell index)
+            reg.psi_vals = np.array([fh(ct["A"][0]) for ct in r["contours"]])
             for ct in r["contours"]:
                 pos = arr(ct["pos"])
                 fc = fine(pos, ct["si"], ct["ei"])
